@@ -145,7 +145,7 @@ func c18(r *core.Run) {
 
 	c18Migrate(r)
 	c18Codec(r)
-	c18FreshTarget(r)
+	c18FreshTarget(r, "C18.FRESH")
 	c07JSONSave(r, "C18.ATOMICSAVE")
 }
 
@@ -402,7 +402,7 @@ func c18Codec(r *core.Run) {
 // slices reuse the previous backing array. A signature decoded inside a loop therefore needs a target that is
 // allocated in that iteration; a variable declared outside the loop carries the previous element's content
 // into the next one (and into every shallow copy taken of it).
-func c18FreshTarget(r *core.Run) {
+func c18FreshTarget(r *core.Run, rule string) {
 	p := r.P
 	n := 0
 	for _, rel := range []string{storeRel, "pkg/storage/jsondb"} {
@@ -428,7 +428,7 @@ func c18FreshTarget(r *core.Run) {
 					if callee := core.StaticCallee(c); callee != nil && p.IsProdFunc(callee) && len(c.Args) == 1 && c.Args[0].Type().String() == "[]byte" {
 						if rt := resultTypes(callee); len(rt) == 2 && core.IsNamed(rt[0], detPath(p), "Signature") && core.LoopHeaderOf(in.Block()) != nil {
 							n++
-							r.OK("C18.FRESH", core.FuncName(fn)+"#decode-returns-value", in.Pos(), "the decoder returns a new signature value for every element")
+							r.OK(rule, core.FuncName(fn)+"#decode-returns-value", in.Pos(), "the decoder returns a new signature value for every element")
 						}
 					}
 					return
@@ -447,9 +447,9 @@ func c18FreshTarget(r *core.Run) {
 				if isAlloc && al.Block() == h {
 					fresh = true // allocated in the header: once per iteration as well
 				}
-				r.Check(fresh, "C18.FRESH", core.FuncName(fn)+"#decode-target-per-iteration", in.Pos(), "the signature decoded in this loop is a variable allocated in the same iteration", "a signature is decoded inside a loop into a variable that outlives the iteration: optional fields missing in one entry keep the previous entry's values and slices share a backing array, so the stored signatures are not field for field what the file says")
+				r.Check(fresh, rule, core.FuncName(fn)+"#decode-target-per-iteration", in.Pos(), "the signature decoded in this loop is a variable allocated in the same iteration", "a signature is decoded inside a loop into a variable that outlives the iteration: optional fields missing in one entry keep the previous entry's values and slices share a backing array, so the stored signatures are not field for field what the file says")
 			})
 		}
 	}
-	r.Floor("C18.FRESH", "signature decodes inside loops", n, 3)
+	r.Floor(rule, "signature decodes inside loops", n, 3)
 }
